@@ -32,8 +32,8 @@ CHECKS = {
  'C12': dict(category='exploration', technique='explicit TLA+ contract (TraceXfer.tla) checked by TLC on recorded dump+load transfers',
    text='Seeded dump/load cases (1-4 roots, list/dict, random signs, constants included; pickle with levels True/False, JSON with load_order True/False; into a fresh manager, the same manager, same order, different order, extra variable + pre-existing nodes; dump without roots; whole-manager pickle) are recorded with the states of source and receiver before/after; TLC checks roots denote the dumped functions by name under the same keys/positions, receiver canonical with exact counts (the JSON loader\'s temporary references gone), held references unchanged, and that loads inside the documented domain do not raise.',
    note=TRUST + 'Byte formats are not modelled: dump followed by load is one abstract transfer. Unreachable Function objects are finalised (gc.collect) before each snapshot.', design='7 (C12)'),
- 'C13': dict(category='exploration', technique='explicit TLA+ semantics (BoolFun!PreimageF/ImageF) checked by TLC on exhaustive/sampled sweeps of the real image/preimage',
-   text='For one primed/unprimed pair EVERY relation x operand x quantified subset x quantifier x order, and for two pairs sampled relations/operands over every order of 4 variables, dd.bdd.image/preimage (names and levels) and dd.autoref.image/preimage are run on a manager holding all functions; TLC re-evaluates the documented preconditions and checks each result against the relational-product definition (rename, conjoin, quantify). The rename recursion and quantification used inside are model-checked in MC_Let2.',
+ 'C13': dict(technique='explicit TLA+ specification: BoolFun!PreimageF/ImageF, the transcribed _image recursion model-checked by TLC against them (MC_Rel), and TLC judging exhaustive/sampled sweeps of the real image/preimage',
+   text='For one primed/unprimed pair EVERY relation x operand x quantified subset x quantifier x order, and for two pairs sampled relations/operands over every order of 4 variables, dd.bdd.image/preimage (names and levels) and dd.autoref.image/preimage are run on a manager holding all functions; TLC re-evaluates the documented preconditions and checks each result against the relational-product definition (rename, conjoin, quantify). MC_Rel model-checks the transcribed _image recursion (simultaneous descent with the level shift of the renamed operand) against the same contracts for one pair plus a free variable.',
    note=TRUST + 'Three pairs are not covered. Open known finding: preimage with a target that mentions a primed variable.', design='7 (C13)'),
  'C18': dict(category='exploration', technique='explicit TLA+ contracts (Views rows of TraceSweep.tla: Shannon expansion, Reach, graph evaluation) checked by TLC on sweeps of the real code',
    text='For all functions of 3 variables in every order (4 variables sampled/thorough): Function.var/low/high/negated/level and BDD.succ must reproduce the function by Shannon expansion; descendants = reachability; len/dag_size = reachable count; the to_nx graph and the DOT text must contain exactly the reachable nodes with levels and EVALUATE (then/else edges, complement marks, ref layer) to the function of each root, as computed by TLC from the exported structure.',
